@@ -127,9 +127,14 @@ def _make_df(table):
     names, types, parts = table
     tmap = {'i': T.LongType, 'd': T.DoubleType, 's': T.StringType, 'b': T.BooleanType}
     schema = T.StructType([T.StructField(n, tmap[t](), True) for n, t in zip(names, types)])
-    rdds = [sc.parallelize(list(p), 1) for p in parts]
-    rdd = rdds[0] if len(rdds) == 1 else sc.union(rdds)
-    return spark.createDataFrame(rdd, schema)
+    k = len(parts)
+    # exactly the given partitions (empty ones included), through the public API only
+    rdd = sc.parallelize(range(k), k).mapPartitionsWithIndex(lambda i, it: iter(list(parts[i])))
+    df = spark.createDataFrame(rdd, schema)
+    got = [[tuple(r) for r in p] for p in df.rdd.glom().collect()]
+    if got != [list(p) for p in parts]:
+        raise RuntimeError(f'harness: could not build the requested partitioning: {got!r} != {parts!r}')
+    return df
 
 
 def _apply(op, df, t2):
@@ -802,19 +807,24 @@ def exhaustive_cases(rng):
 
 def generate(rng, tier):
     g = Gen(rng)
-    cases = list(_corpus())
-    cases += exhaustive_cases(rng)
+    heavy = exhaustive_cases(rng)
     n = 1500 if tier == 'quick' else 24000
-    made = 0
+    light = []
     guard = 0
-    while made < n and guard < 10 * n:
+    while len(light) < n and guard < 10 * n:
         guard += 1
         c = g.case()
         if not c[2] or not in_scope(c):
             continue
+        light.append(c)
+    # the exhaustive cases are large (81 rows x ~17 expressions): spread them over the shards
+    cases = list(_corpus())
+    step = max(1, len(light) // (len(heavy) + 1))
+    for i, c in enumerate(light):
+        if i % step == 0 and heavy:
+            cases.append(heavy.pop(0))
         cases.append(c)
-        made += 1
-    return cases
+    return cases + heavy
 
 
 def _corpus():
